@@ -54,6 +54,8 @@ fn health(acc: &Acc, _t: Tier) -> Vec<String> {
             ("class:dead-storage", 300),
             ("reference-attribution-checked", 1000),
             ("lookalike:mapping-hash-in-value", 100),
+            ("key:hash-of-text-and-symbolic-words", 100),
+            ("key:hash-of-text-words", 50),
             ("lookalike:array-hash-in-value", 300),
             ("lookalike:prefolded-constant-in-value", 200),
             ("lookalike:to-memory/log/return/call", 500),
@@ -223,7 +225,49 @@ fn g_mixed(ch: &mut Chooser, acc: &mut Acc) -> B {
     // real accesses through idioms, straight-line
     let t = idiom::gen_truth(ch, 3);
     for _ in 0..ch.range(1, 4) {
-        match ch.below(3) {
+        match ch.below(4) {
+            3 => {
+                // a namespaced key: the hash of several memory words, some constant text, at most one of
+                // them symbolic (keccak("app.storage.v1" . caller . ".balance")). With a symbolic word the
+                // key names no fixed slot; the hash of the constant words alone is never computed.
+                let n = ch.range(2, 4);
+                let sym_at = if ch.chance(3, 4) { Some(ch.below(n)) } else { None };
+                acc.label(if sym_at.is_some() { "key:hash-of-text-and-symbolic-words" } else { "key:hash-of-text-words" });
+                for i in 0..n {
+                    if Some(i) == sym_at {
+                        if ch.chance(1, 2) {
+                            b.emit(asm::CALLER);
+                        } else {
+                            b.push(W::from_u64(4));
+                            b.emit(asm::CALLDATALOAD);
+                        }
+                    } else {
+                        let len = if i + 1 == n || ch.chance(1, 3) { ch.range(1, 32) } else { 32 };
+                        let mut bytes = [0u8; 32];
+                        for x in bytes.iter_mut().take(len) {
+                            *x = *ch.pick(&[b'a', b'p', b'.', b'_', b'S', b'z', b'0', b'9', b' ', b'~']);
+                        }
+                        b.push(W::from_be_slice(&bytes));
+                    }
+                    b.push(W::from_u64(32 * i as u64));
+                    b.emit(asm::MSTORE);
+                }
+                b.push(W::from_u64(32 * n as u64));
+                b.push(W::ZERO);
+                b.emit(asm::SHA3);
+                if ch.chance(1, 3) {
+                    b.push(W::from_u64(ch.range(1, 3) as u64));
+                    b.emit(asm::ADD);
+                }
+                if ch.chance(1, 2) {
+                    b.emit(asm::SLOAD);
+                    b.emit(asm::POP);
+                } else {
+                    b.emit(asm::CALLVALUE);
+                    b.emit(asm::SWAP1);
+                    b.emit(asm::SSTORE);
+                }
+            }
             0 => {
                 // a look-alike hash stored as a VALUE under a literal key
                 lookalike(&mut b, ch, acc, true);
